@@ -58,6 +58,10 @@ EmptyCfgs == { c \in Mk(0..3, 0..MaxI, {0, 1}, {"raise", "ignore"}, {"raise", "s
 EmptyOuts == {S(0)}
 EmptyCfgsS == Sharded(EmptyCfgs)
 
+(* S-deep: one deterministic behaviour - tol = 0, so no pass is ever below it - that runs for MaxI passes (long traces) *)
+DeepCfgs == { c \in Mk({0}, {MaxI}, {0}, {"ignore"}, {"ignore"}, {TRUE}, {3}, {0}, {<<0, 0>>}, {<<0, 0>>}) : c.t = 1 }
+DeepOuts == {S(1)}
+
 (* S-long: simulation over a wide product *)
 LongCfgs == { c \in Mk(0..(MaxI + 1), 0..MaxI, {0, 1, 2, 3}, {"raise", "ignore"},
                        {"raise", "skip", "ignore", "replace", "bogus"}, BOOLEAN, {2, 4}, {-1, 0, 1},
